@@ -106,19 +106,56 @@ func (Segment).Remove
     flags noframe only_sync
     assigns fsExists, dirDirty
 
-// ASSUMED frame: Check only reads (opens, scans and closes the segment's files)
+// C07: Check accepts exactly the clean segments. Over the record abstraction of the log file as it is on entry
+// (f): a file that does not parse completely is rejected; for a file that does, the stored index is compared
+// with the derived one, item by item. Its frame (it only reads) is ASSUMED, not checked (noframe).
 func (Segment).Check
-    flags assumed
+    flags noframe only_check only_derive
+    requires[check_ok] absDef(fsContent[s.Log])
     assigns fPath
+    ensures[check_damaged] !tailClean(old(fsContent)[s.Log]) ==> err != nil
+    // the three outcomes after a complete parse: no index file: accepted; unreadable index: its error;
+    // readable index: accepted iff equal to the derived index
+    assert[check_derived]  derived(checkIndex, old(fsContent)[s.Log], params) && tailClean(old(fsContent)[s.Log]) at call index.Read 1
+    assert[check_noindex]  tailClean(old(fsContent)[s.Log]) at return 3
+    assert[check_readerr]  tailClean(old(fsContent)[s.Log]) && err != nil at return 4
+    assert[check_differs]  !(len(items) == len(checkIndex) && (forall k :: 0 <= k && k < len(items) ==> items[k] == checkIndex[k])) at return 5
+    assert[check_equal]    tailClean(old(fsContent)[s.Log]) && derived(items, old(fsContent)[s.Log], params) at return 6
+    loop 1
+      invariant[derive_file]  log != nil && log.gfile == old(fsContent)[s.Log] && absDef(log.gfile) && atIdx(log.gfile, position)
+      invariant[derive_count] len(checkIndex) == recIdx(log.gfile, position) && indexTime == ite(len(checkIndex) > 0, checkIndex[len(checkIndex)-1].Timestamp, 0)
+      invariant[derive_items] forall k :: 0 <= k && k < len(checkIndex) ==>
+                                  checkIndex[k].Position == recPos(log.gfile, k) && checkIndex[k].Offset == recOffset(log.gfile, k)
+                                  && checkIndex[k].Timestamp == ite(params.Times, recTs(log.gfile, k), 0)
+                                  && checkIndex[k].KeyHash == ite(params.Keys, recHash(log.gfile, k), 0)
 
 func (Segment).Recover
-    flags noframe only_sync only_crash
+    flags noframe only_sync only_crash only_recover only_derive
+    // C07, over the record abstraction of the log file as it is on entry (f)
+    requires[recover_ok] absDef(fsContent[s.Log])
+    // the scan stops at the end of the valid prefix; the file counts as damaged exactly when bytes follow it
+    assert[recover_class]   (corrupted <==> !tailClean(old(fsContent)[s.Log])) && len(restoreIndex) == recN(old(fsContent)[s.Log]) at call (*Reader).Close 1
+    // the index kept for the segment is the index derived from the valid prefix
+    assert[recover_derived] derived(restoreIndex, old(fsContent)[s.Log], params) at call (*Reader).Close 1
+    // only a damaged log is replaced (by the temp file holding the copied records); an undamaged one is not touched
+    assert[recover_replace] corrupted && arg0 == restore.Path && arg1 == s.Log && restore.Path == s.Log + ".recover" at call os.Rename 1
+    ensures[recover_noop]   tailClean(old(fsContent)[s.Log]) && s.Log + ".recover" != s.Log && s.Index != s.Log ==> fsContent[s.Log] == old(fsContent)[s.Log] && fsExists[s.Log] == old(fsExists)[s.Log]
+    // a stored index that differs from the derived one is replaced by the derived one
+    assert[recover_index]   arg0 == s.Index && arg1 == s.Offset && arg3 == params && arg4 == restoreIndex at call index.Write 1
     // C05 crash invariant tempFresh: the temp file about to be written does not exist (a stale one
     // left by an interrupted earlier recovery would be appended to)
     assert[crash_tempfresh] !fsExists[s.Log + ".recover"] at call message.OpenWriter 1
     assigns fPath, fsDirty, fsExists, fsContent, dirDirty, index.Writer.pos
     loop 1
       invariant[sync] wrOK(restore)
+      invariant[recover_state] !corrupted && restore != nil && restore.Path == s.Log + ".recover"
+                               && (s.Log + ".recover" != s.Log ==> fsContent[s.Log] == old(fsContent)[s.Log] && fsExists[s.Log] == old(fsExists)[s.Log])
+      invariant[derive_file]  log != nil && log.gfile == old(fsContent)[s.Log] && absDef(log.gfile) && atIdx(log.gfile, position)
+      invariant[derive_count] len(restoreIndex) == recIdx(log.gfile, position) && indexTime == ite(len(restoreIndex) > 0, restoreIndex[len(restoreIndex)-1].Timestamp, 0)
+      invariant[derive_items] forall k :: 0 <= k && k < len(restoreIndex) ==>
+                                  restoreIndex[k].Position == recPos(log.gfile, k) && restoreIndex[k].Offset == recOffset(log.gfile, k)
+                                  && restoreIndex[k].Timestamp == ite(params.Times, recTs(log.gfile, k), 0)
+                                  && restoreIndex[k].KeyHash == ite(params.Keys, recHash(log.gfile, k), 0)
 
 func (Segment).Migrate
     flags noframe only_sync only_crash only_version
@@ -176,7 +213,7 @@ func (Segment).Rewrite
 
 func (Segment).ReindexReader
     flags noframe only_sync only_derive
-    requires[derive_ok] log != nil && log.gfile == fsContent[s.Log] && wfLog(log.gfile) && tsDef(log.gfile)
+    requires[derive_ok] log != nil && log.gfile == fsContent[s.Log] && absDef(log.gfile)
                         && (log.v == message.V1 || log.v == message.V2) && recPos(log.gfile, 0) == ite(log.v == message.V1, 0, 8)
     assigns fPath, fsDirty, fsExists, fsContent, fData, fSize, index.Writer.pos
     ensures[sync_clean] err == nil ==> !fsDirty[s.Index]
@@ -188,7 +225,7 @@ func (Segment).ReindexReader
     assert[derive_written]  arg0 == s.Index && arg1 == s.Offset && arg2 == version && arg3 == params && arg4 == newIndex at call index.Write 1
     loop 1
       invariant[sync] true
-      invariant[derive_file]  log != nil && log.gfile == old(fsContent)[s.Log] && wfLog(log.gfile) && tsDef(log.gfile) && atIdx(log.gfile, position)
+      invariant[derive_file]  log != nil && log.gfile == old(fsContent)[s.Log] && absDef(log.gfile) && atIdx(log.gfile, position)
       invariant[derive_count] len(newIndex) == recIdx(log.gfile, position) && indexTime == ite(len(newIndex) > 0, newIndex[len(newIndex)-1].Timestamp, 0)
       invariant[derive_items] forall k :: 0 <= k && k < len(newIndex) ==>
                                   newIndex[k].Position == recPos(log.gfile, k) && newIndex[k].Offset == recOffset(log.gfile, k)
